@@ -9,6 +9,11 @@ use std::io::Write as _;
 thread_local! {
     /// per id (1-based): (created, dropped)
     static LEDGER: RefCell<Vec<(u32, u32)>> = RefCell::new(Vec::new());
+    /// Some(k): the (k+1)-th call of L::clone from now on panics
+    static CLONE_BOMB: std::cell::Cell<Option<u32>> = std::cell::Cell::new(None);
+}
+pub fn set_clone_bomb(k: Option<u32>) {
+    CLONE_BOMB.with(|b| b.set(k));
 }
 
 /// element with identity; the payload is a function of the id (checked wherever a value is observed)
@@ -41,6 +46,11 @@ impl L {
 }
 impl Clone for L {
     fn clone(&self) -> L {
+        CLONE_BOMB.with(|b| match b.get() {
+            Some(0) => { b.set(None); panic!("L::clone bomb"); }
+            Some(k) => b.set(Some(k - 1)),
+            None => {}
+        });
         L::new()
     }
 }
@@ -107,6 +117,17 @@ fn run<const N: usize>(s: &mut Summary, v: &V) {
                 objs[j] = n;
             }
             "drop" => { objs[i] = Obj::None; }
+            "clone_panic" => {
+                // T::clone panics part-way: the half-built clone is dropped during unwinding
+                set_clone_bomb(Some(st["j"].as_u64().unwrap() as u32));
+                let r = std::panic::catch_unwind(std::panic::AssertUnwindSafe(|| match &objs[i] {
+                    Obj::C(c) => drop(c.clone()),
+                    Obj::B(b) => drop(b.clone()),
+                    Obj::None => {}
+                }));
+                set_clone_bomb(None);
+                s.monitor("Clone with a panicking T::clone", r.is_err(), "the panic propagates");
+            }
             "assert_is_empty" => {
                 if let Obj::C(c) = std::mem::replace(&mut objs[i], Obj::None) { c.assert_is_empty(); }
             }
@@ -211,12 +232,25 @@ fn record_n<const N: usize>(rng: &mut rand::rngs::SmallRng, n_events: usize, out
             };
             if op == "next_none_or_skip" { continue; }
             let before = caller.len();
+            let mut op_override: Option<(&str, u32)> = None;
             match op {
                 "next" | "next_back" | "next_none" => if let Obj::C(c) = &mut objs[i] {
                     let r = if op == "next_back" { c.next_back() } else { c.next() };
                     if let Some(x) = r { caller.push(ManuallyDrop::into_inner(x)); }
                 },
-                "clone" => { let n = match &objs[i] { Obj::C(c) => Obj::C(c.clone()), Obj::B(b) => Obj::B(b.clone()), Obj::None => Obj::None }; objs[1 - i] = n; }
+                "clone" => {
+                    let wl = match &objs[i] { Obj::C(c) => c.as_slice().len(), Obj::B(b) => b.as_slice().len(), Obj::None => 0 };
+                    if wl > 0 && rng.gen_bool(0.4) {
+                        let j = rng.gen_range(0..wl) as u32;
+                        set_clone_bomb(Some(j));
+                        let _ = std::panic::catch_unwind(std::panic::AssertUnwindSafe(|| match &objs[i] {
+                            Obj::C(c) => drop(c.clone()), Obj::B(b) => drop(b.clone()), Obj::None => {} }));
+                        set_clone_bomb(None);
+                        op_override = Some(("clone_panic", j));
+                    } else {
+                        let n = match &objs[i] { Obj::C(c) => Obj::C(c.clone()), Obj::B(b) => Obj::B(b.clone()), Obj::None => Obj::None }; objs[1 - i] = n;
+                    }
+                }
                 "drop" => { objs[i] = Obj::None; }
                 "assert_is_empty" => { if let Obj::C(c) = std::mem::replace(&mut objs[i], Obj::None) { c.assert_is_empty(); } }
                 "push" => { if let Obj::B(b) = &mut objs[i] { b.push(L::new()); } }
@@ -233,7 +267,8 @@ fn record_n<const N: usize>(rng: &mut rand::rngs::SmallRng, n_events: usize, out
             let handed: Vec<u32> = caller[before..].iter().map(|x| x.id).collect();
             for x in &caller[before..] { intact &= x.intact(); }
             let snap = ledger_snapshot();
-            writeln!(out, "{}", json!({"ev": op, "o": nm, "a": a, "b": b, "handed": handed,
+            let (op, jj) = op_override.unwrap_or((op, 0));
+            writeln!(out, "{}", json!({"ev": op, "o": nm, "j": jj, "a": a, "b": b, "handed": handed,
                 "dropped": snap.iter().map(|x| x.1).collect::<Vec<_>>(), "intact": intact as u8})).unwrap();
             left -= 1;
         }
